@@ -368,6 +368,9 @@ where
             if got.rows != rranks[*deg] { return fail("tracked-vector-shape", format!("vector {k} has dim {} in a rank-{} module", got.rows, rranks[*deg])); }
             if let Some((f, _)) = &red.trans[*deg] {
                 if spmat_to_dm(f).mul(&vd) != got { return fail("tracked-vector-wrong", format!("tracked vector {k} != f(original)")); }
+            } else if *deg < len && d[*deg].cols == vd.rows && dr[*deg].cols == got.rows && d[*deg].mul(&vd).is_zero() && !dr[*deg].mul(&got).is_zero() {
+                // no transfer map to compare with: the image of a cycle under a chain map is still a cycle
+                return fail("tracked-vector-wrong", format!("tracked vector {k} was a cycle, its image is not (no transfer maps kept)"));
             }
         }
         // same homology
